@@ -205,6 +205,18 @@ theorem solve_correct (hinv : InverseCircuitComplete) (np : Nat) (adj : Nat → 
   have h4 := h3.trans (Solver.withEmitters_graph np s.ne adj)
   exact ⟨rs, h1, h2, h4.n_eq, fun p => ⟨h4.sub p, h4.sup p⟩⟩
 
+/-- **correctness for any stabilizer target** without product qubit: the returned circuit prepares exactly `target ⊗ |0…0⟩` (signed group)
+    under every outcome script -/
+theorem solve_correct_stabilizer (hinv : InverseCircuitComplete) (target : STab) (hg : target.Good) (hi : target.LinIndep)
+    (hn : 0 < target.n) (hnp : ∀ p, p < target.n → target.NotProd p) :
+    ∃ s, Solver.solve target = .ok s ∧
+      ∀ script : List Bool, ∃ rs, stabRun s.ne target.n .prob script s.cops = some rs ∧ rs.t.Valid ∧
+        (STab.ofTab rs.t).n = target.n + s.ne ∧ ∀ p, (STab.ofTab rs.t).Spn p ↔ (Solver.withEmitters target s.ne).Spn p := by
+  obtain ⟨s, hs, hfinal⟩ := solver_complete_stabilizer hinv target hg hi hn hnp
+  refine ⟨s, hs, fun script => ?_⟩
+  obtain ⟨rs, h1, h2, h3⟩ := Solver.solve_run target hg s hs hfinal script
+  exact ⟨rs, h1, h2, h3.n_eq.trans (Solver.withEmitters_n target s.ne), fun p => ⟨h3.sub p, h3.sup p⟩⟩
+
 /-! ### The steps of the completeness argument (sub-goals 1–4), each a theorem of its own -/
 
 /-- the loop invariant before the round that absorbs photon `m - 1` (`Solver.RInv`): real commuting independent generators on
